@@ -705,9 +705,19 @@ impl<'tcx> Extractor<'tcx> {
         match rv {
             Rvalue::Use(op, _) => push(op),
             Rvalue::Cast(_, op, _) => push(op),
-            Rvalue::Aggregate(_, ops) => {
+            Rvalue::Aggregate(k, ops) => {
                 for op in ops.iter() {
                     push(op);
+                }
+                if let AggregateKind::Adt(d, vi, _, _, _) = &**k {
+                    let adt = self.tcx.adt_def(*d);
+                    if adt.is_enum() && ops.is_empty() {
+                        out.push(js(&format!(
+                            "{}::{}",
+                            self.tcx.def_path_str(*d),
+                            adt.variant(*vi).name
+                        )));
+                    }
                 }
             }
             Rvalue::Repeat(op, _) => push(op),
